@@ -10,6 +10,9 @@ Ascii   == <<98, 121, 101>>                 \* "bye"
 Utf8Two == <<195, 169, 226, 130, 172>>      \* U+00E9 U+20AC
 Utf8Max == <<240, 159, 152, 128, 244, 143, 191, 191>>   \* U+1F600 U+10FFFF
 BadByte == <<98, 255, 101>>                 \* 0xFF never occurs in UTF-8
+\* the longest reason a close frame can carry (123 bytes), valid and with one invalid byte in the middle
+LongAscii == [i \in 1..123 |-> 97]
+BadLong   == [i \in 1..123 |-> IF i = 60 THEN 255 ELSE 97]
 BadTrunc == <<98, 195>>                     \* 2-byte sequence cut short
 BadOverlong == <<192, 128>>                 \* overlong NUL
 BadSurrogate == <<237, 160, 128>>           \* U+D800
@@ -93,7 +96,7 @@ HeaderAlpha(r, L) ==
   \ { Fr(8, fin, rsv, mk, Lengths(1)) : fin \in BOOLEAN, rsv \in {0, 1, 2, 4}, mk \in BOOLEAN }   \* no 1-byte close bodies
 CloseBodies(r) ==
   { CloseFr(TRUE, 0, M(r), c, rs) : c \in ValidCodes \cup InvalidCodes,
-                                   rs \in {<<>>, Ascii, Utf8Two, BadByte, BadTrunc, BadOverlong, BadSurrogate, BadRange, BadCont} }
+                                   rs \in {<<>>, Ascii, Utf8Two, BadByte, BadTrunc, BadOverlong, BadSurrogate, BadRange, BadCont, LongAscii, BadLong} }
 McHeader(r, L) == HeaderAlpha(r, L) \cup CloseBodies(r)
 
 \* model checking, deeper, thinned
